@@ -674,7 +674,7 @@ func runReporterScript(sc *rscript) (obs *robs) {
 			expectFail = true
 			select {
 			case <-closedCh:
-			case <-time.After(5 * time.Second):
+			case <-time.After(20 * time.Second):
 				gaveUp = true
 			}
 			continue
@@ -782,7 +782,7 @@ func runReporterScript(sc *rscript) (obs *robs) {
 		waitQuiet(&act, quiet, 3*time.Second)
 	}
 	if expectFail {
-		wait := 5 * time.Second
+		wait := 20 * time.Second
 		if gaveUp {
 			wait = 10 * time.Millisecond
 		}
@@ -796,7 +796,7 @@ func runReporterScript(sc *rscript) (obs *robs) {
 	select {
 	case <-closedCh:
 		obs.closed = true
-	case <-time.After(5 * time.Second):
+	case <-time.After(30 * time.Second):
 	}
 	return obs
 }
@@ -1425,7 +1425,7 @@ func runReporter(r *rand.Rand, tier, outDir string, sum *emit.Summary) error {
 	}
 	wg.Wait()
 	// goroutines back to the baseline?
-	deadline := time.Now().Add(5 * time.Second)
+	deadline := time.Now().Add(45 * time.Second)
 	leak := 0
 	for {
 		leak = runtime.NumGoroutine() - baseline
@@ -1443,7 +1443,7 @@ func runReporter(r *rand.Rand, tier, outDir string, sum *emit.Summary) error {
 	panicMu.Unlock()
 	sum.Extra["watcher_goroutines_above_baseline"] = leak
 	if leak > 0 {
-		sum.ImplFailures = append(sum.ImplFailures, fmt.Sprintf("watcher: %d goroutines above the baseline 5s after all watches were cancelled: %s", leak, goroutineSummary()))
+		sum.ImplFailures = append(sum.ImplFailures, fmt.Sprintf("watcher: %d goroutines above the baseline 45s after all watches were cancelled: %s", leak, goroutineSummary()))
 	}
 
 	cf := &emit.CaseFile{Name: "Cases_C16_watcher", Imports: "From CliUtils Require Import Model.Reporter Corr.CorrC16.", Check: "check_reporter"}
@@ -1457,7 +1457,7 @@ func runReporter(r *rand.Rand, tier, outDir string, sum *emit.Summary) error {
 			continue
 		}
 		if !o.closed {
-			sum.ImplFailures = append(sum.ImplFailures, "watcher: event channel not closed 5s after cancel: "+text)
+			sum.ImplFailures = append(sum.ImplFailures, "watcher: event channel not closed 30s after cancel: "+text)
 		}
 		cf.Add(term, text)
 		terms = append(terms, term)
